@@ -223,13 +223,13 @@ func (fv *FuncVerifier) applyContract(st *State, c *FuncContract, name string, p
 	if !c.HasModifies {
 		st.havocAll()
 	} else {
-		for _, m := range c.Modifies {
-			fv.havocClause(st, env, old, m.E, ci)
-		}
-		// allocation may happen
+		// allocation may happen (before the havoc, so that havocked references may point to new objects)
 		nh := fv.enc.fresh("hwm", SInt)
 		st.assume(Ge(nh, st.hwm))
 		st.hwm = nh
+		for _, m := range c.Modifies {
+			fv.havocClause(st, env, old, m.E, ci)
+		}
 	}
 	if ci != nil && ci.clo != nil {
 		for i, fvv := range ci.fn.FreeVars {
@@ -244,6 +244,9 @@ func (fv *FuncVerifier) applyContract(st *State, c *FuncContract, name string, p
 	}
 	_ = capturedCells
 	res := fv.freshResult(st, sn, sig)
+	if len(res.L) > 0 {
+		st.assumeRefs(res)
+	}
 	// bind results
 	post := map[string]Value{}
 	for k2, v := range vars {
@@ -407,6 +410,7 @@ func (fv *FuncVerifier) havocPlace(st *State, p *Place) {
 		return
 	}
 	nv := st.freshValue("havoc", p.Typ)
+	st.assumeRefs(nv)
 	st.store(p, nv)
 }
 
